@@ -1500,6 +1500,15 @@ func (u *Unit) runLoop(st *State, lc *LoopContract, n int, label string, pos, bo
 	// continue states join the fallthrough before the post statement
 	conts := append([]*State{after}, lctx.continues...)
 	back := u.merge(head, conts)
+	if back != nil && len(lc.Steps) > 0 {
+		// `loop N step <cond>`: holds at the end of every iteration (fallthrough and `continue` paths alike), evaluated
+		// before the post statement with the locals of the body still in scope
+		senv := u.invEnv(back, bodyPos)
+		senv.scopePos = token.NoPos
+		for i, cl := range lc.Steps {
+			u.emit(back, "inv", fmt.Sprintf("loop-step#%d.%d", n, i), "at the end of every iteration of loop "+fmt.Sprint(n)+": "+cl.Text, pos, senv.evalBool(cl.Expr))
+		}
+	}
 	if back != nil {
 		back = post(back)
 	}
